@@ -141,10 +141,10 @@ func main() {
 	var wg sync.WaitGroup
 	sem := make(chan struct{}, 16)
 	type tjob struct {
-		f    json.RawMessage
-		p    string
-		ct   []byte
-		msg  []byte
+		f   json.RawMessage
+		p   string
+		ct  []byte
+		msg []byte
 	}
 	var tjobs []tjob
 	for i, r := range rows {
